@@ -92,8 +92,12 @@ def run(facts, tier):
     r06_3(facts, res)
     c03.r03_3(facts, res, "R06-4", reach, reasons_e1.scc_reasons(facts, reach))
     import guards
-    guards.rule(facts, res, "R06-4g", [facts.fns[x] for x in reach if x in facts.fns], want=("G1", "G2", "G4"), floor=1)
+    guards.rule(facts, res, "R06-4g", [facts.fns[x] for x in reach if x in facts.fns], want=("G1", "G2", "G4", "G5"), floor=1)
     r06_5(facts, res, reach)
+    # the sibling axes walk next_sibling / previous_sibling, which look nodes up by their order key: stale cached keys make a
+    # node its own sibling and the walk endless - the cache discipline of C14
+    from props import c14
+    c14.c14_8(facts, res, "R06-7")
     import borrowck
     borrowck.rule(facts, res, "R06-6", reach, floor=3)
     return res
